@@ -751,4 +751,50 @@ func (c *Ctx) checkChainScoped(rule string, keep func(prefix string) bool) {
 	if n == 0 {
 		r.Undecided(rule, "chain-scoped", "-", "no per-chain store access found")
 	}
+	c.checkIteratorBounds(rule, keep)
+}
+
+// checkIteratorBounds: an iterator with an explicit end bound stays inside the chain its start key names: the
+// end is the PrefixEndBytes of a key that carries the same leading parts up to and including the chain id.
+func (c *Ctx) checkIteratorBounds(rule string, keep func(prefix string) bool) {
+	p, r := c.P, c.R
+	for _, f := range sortedFuncs(c.LiveReach()) {
+		if p.L.IsGenerated(f.Pos()) || !p.IsModule(f) {
+			continue
+		}
+		for _, op := range p.StoreOps(f) {
+			if !op.IsIter() || (op.End == nil && !op.EndOpen) {
+				continue
+			}
+			pn := c.prefixName(op)
+			if pn == "" || !keep(pn) {
+				continue
+			}
+			chainAt := -1
+			for i, pt := range op.Key.Parts {
+				if pt.Kind == "chain" {
+					chainAt = i
+					break
+				}
+			}
+			if chainAt < 0 {
+				continue
+			}
+			ok := false
+			if op.End != nil && len(op.End.Parts) > chainAt {
+				ok = true
+				for i := 0; i <= chainAt; i++ {
+					a, b := op.Key.Parts[i], op.End.Parts[i]
+					if a.Kind != b.Kind || (a.Kind == "const" && string(a.Const) != string(b.Const)) {
+						ok = false
+					}
+					if a.Kind == "chain" && !sameObject(a.Val, b.Val) && a.Val != b.Val {
+						ok = false
+					}
+				}
+			}
+			r.Check(ok, rule, "iterator-bound:"+pn+":"+fname(f), c.pos(op.Site), "the range scan over "+pn+" ends inside the chain it starts in",
+				fname(f)+" scans "+pn+" from a key of one chain to an end bound that is not the end of that chain's keys: the scan runs on into the records of the chains that sort after it")
+		}
+	}
 }
